@@ -74,6 +74,10 @@ func (it *interp) runCopyOut(ev *evaluator) *copyOut {
 			return true
 		})
 	}
+	// the vector may be built under another name and handed over by a plain copy
+	// (`out := make(...); ...; result = out`): the slice header is copied, the
+	// elements are shared, so the name that is filled stands for the result
+	r.newObj = copySource(it.info, it.fn.Decl.Body, r.newObj)
 	if r.newObj == nil {
 		r.co.und = append(r.co.und, "cannot tell which slice is the rebuilt vector")
 		return r.co
@@ -87,6 +91,13 @@ func (r *outRun) stmts(list []ast.Stmt) {
 	for _, s := range list {
 		switch st := s.(type) {
 		case *ast.AssignStmt:
+			if len(st.Lhs) > 1 && len(st.Lhs) == len(st.Rhs) && independent(info, st) {
+				// a, b := x, y with no right-hand side reading a or b: two assignments
+				for i := range st.Lhs {
+					r.stmts([]ast.Stmt{&ast.AssignStmt{Lhs: st.Lhs[i : i+1], TokPos: st.TokPos, Tok: st.Tok, Rhs: st.Rhs[i : i+1]}})
+				}
+				continue
+			}
 			if len(st.Lhs) == 1 && len(st.Rhs) == 1 {
 				if ie, ok := ast.Unparen(st.Lhs[0]).(*ast.IndexExpr); ok && objOf(info, ie.X) == r.newObj {
 					se, isIdx := strip(info, st.Rhs[0]).(*ast.IndexExpr)
@@ -182,6 +193,36 @@ func (r *outRun) stmts(list []ast.Stmt) {
 				r.stmts([]ast.Stmt{st.Init})
 			}
 			if v, ok := r.ev.cond(st.Cond); ok {
+				if !v && st.Else == nil && r.dry == 0 {
+					// a guard that is false for this row (`if rest := len(args) - tail; rest > 0 { copy loop }`):
+					// the body does not run; a copy loop inside it that would make zero trips anyway is
+					// still recorded, as the empty range it stands for, so that an empty tail is a tail
+					saved := map[types.Object]poly{}
+					for o, p := range r.ev.env {
+						saved[o] = p
+					}
+					n0 := len(r.co.stores)
+					und0 := len(r.co.und)
+					r.stmts(st.Body.List)
+					kept := r.co.stores[:n0:n0]
+					for _, stv := range r.co.stores[n0:] {
+						if len(stv.ctx) > 0 {
+							z := stv.ctx[len(stv.ctx)-1]
+							if d, isC := z.hi.add(z.lo, -1).isConst(); isC && d <= 0 {
+								kept = append(kept, stv)
+							}
+						}
+					}
+					r.co.stores = kept
+					r.co.und = r.co.und[:und0]
+					for o := range r.ev.env {
+						delete(r.ev.env, o)
+					}
+					for o, p := range saved {
+						r.ev.env[o] = p
+					}
+					continue
+				}
 				if v {
 					r.stmts(st.Body.List)
 				} else if eb, ok := st.Else.(*ast.BlockStmt); ok {
@@ -313,6 +354,28 @@ func splitHeader(info *types.Info, f *ast.ForStmt) (v, init, bound ast.Expr, op 
 		post = postAs
 	}
 	return v, init, bound, op, pre, post, true
+}
+
+// independent: no right-hand side of the parallel assignment mentions a variable it assigns.
+func independent(info *types.Info, as *ast.AssignStmt) bool {
+	assigned := map[types.Object]bool{}
+	for _, l := range as.Lhs {
+		if o := objOf(info, l); o != nil {
+			assigned[o] = true
+		} else if id, isId := ast.Unparen(l).(*ast.Ident); !isId || id.Name != "_" {
+			return false
+		}
+	}
+	ok := true
+	for _, r := range as.Rhs {
+		ast.Inspect(r, func(n ast.Node) bool {
+			if id, isId := n.(*ast.Ident); isId && assigned[info.Uses[id]] {
+				ok = false
+			}
+			return true
+		})
+	}
+	return ok
 }
 
 func orCall13(c *ast.CallExpr) *ast.CallExpr {
